@@ -62,6 +62,11 @@ def catalogue (hostile_dpid=0x21):
   L.append(Inst("ECHO_REQUEST", W.echo_request(x(), b"ping!")))
   L.append(Inst("ECHO_REPLY", W.echo_reply(x(), b"pong!")))
   L.append(Inst("VENDOR", W.vendor(x(), 0x00002320, b"\0\0\0\x0a\0\0\0\0")))
+  # carriers: opaque bodies that contain complete, valid messages (at offset 64 and right behind the header), so
+  # that a decoder which skips fewer bytes than the declared length would deliver the embedded message
+  inner = W.echo_request(MX + 0xe1, b"inner-1") + W.echo_request(MX + 0xe2, b"inner-2")
+  L.append(Inst("ECHO_REQUEST.carrier", W.echo_request(x(), bytes(56) + inner)))
+  L.append(Inst("VENDOR.carrier", W.vendor(x(), 0x00002320, W.echo_request(MX + 0xe3, b"inner-3") + bytes(37) + inner)))
   L.append(Inst("FEATURES_REQUEST", W.features_request(x()), to="s"))
   L.append(Inst("FEATURES_REPLY", S.features_reply(x(), hostile_dpid, ports, n_buffers=0, capabilities=0xc7), to="c"))
   L.append(Inst("GET_CONFIG_REQUEST", W.get_config_request(x()), to="s"))
